@@ -436,6 +436,13 @@ def grid(tier, rng):
                 for qual in quals:
                     for root in roots:
                         cells.append({"form": form, "qual": qual, "src": src, "tgt": tgt, "root": root})
+    if tier != "quick":
+        # the integer range: to_integer of a 32 bit unsigned / 33 bit signed leaves the VHDL integer
+        for src in (("U", 31), ("U", 32), ("S", 32), ("S", 33)):
+            for form, (ctx, quals, _) in FORMS.items():
+                if form in ("decl_static", "slice", "elem"):
+                    continue
+                cells.append({"form": form, "qual": quals[0], "src": src, "tgt": ("Int",), "root": None})
     return cells
 
 
@@ -505,11 +512,15 @@ CORPUS = [
     ("slice", "Port", ("S", 2), ("S", 3), "BV"), ("elem", "Port", ("Bool",), ("Bit",), "S"),
     ("ixor", "Signal", ("S", 2), ("S", 3), None), ("push", "Port", ("U", 2), ("S", 3), None),
     ("imatmul", "Variable", ("BV", 3), ("U", 3), None), ("value", "Variable", ("S", 1), ("S", 3), None),
-    ("next", "Signal", ("U", 1), ("U", 3), None),
+    ("next", "Signal", ("U", 1), ("U", 3), None), ("port_in", "Port", ("U", 3), ("U", 2), None),
+    ("ilshift", "Port", ("BV", 3), ("BV", 2), None), ("ilshift", "Signal", ("S", 3), ("S", 2), None),
 ]
 
 
 def select_cells(ck):
+    import os
+    if os.environ.get("C05_CELLS") == "corpus":      # fast regression: the fixed corpus only
+        return [{"form": f, "qual": q, "src": s, "tgt": t, "root": r} for f, q, s, t, r in CORPUS]
     allc = grid(ck.tier, ck.rng)
     if ck.tier != "quick":
         return allc
@@ -782,7 +793,9 @@ def run(ck: common.Check, replay=None):
     wdesigns = []
     for n, (k, idxs) in enumerate(sorted(undocumented.items())):
         sm = [i for i in idxs if small(cells[i]["src"]) and small(cells[i]["tgt"])]
-        i = (sm or idxs)[0]
+        if not sm:
+            continue        # witnesses are searched on widths <= 3 only (the alphabet is the product of all inputs)
+        i = sm[0]
         wdesigns.append((k, i, make_pack("w%03d_%s" % (n, cells[i]["form"]), [cells[i]], conv="keep")))
     pres = X.compile_designs(ck, [{"name": d["name"], "source": d["source"], "entity": "E"} for d in pdesigns + [w[2] for w in wdesigns]])
     mark("compile_packs")
